@@ -294,6 +294,40 @@ theorem CacheInv.init (cfg : Config) (hn : 1 ≤ cfg.numChunks) : CacheInv (Cach
   · intro i ch hi it hit; rw [hget i ch hi] at hit; cases hit
   · intro i ch hi k hk; rw [hget i ch hi] at hk; cases hk
 
+/-- the property's "valid configuration": at least one chunk, at least one item and one byte per chunk -/
+structure Config.Valid (cfg : Config) : Prop where
+  chunks : 1 ≤ cfg.numChunks
+  items : 1 ≤ cfg.maxNumItems / cfg.numChunks
+  bytes : 1 ≤ cfg.maxNumBytes / cfg.numChunks
+
+theorem CacheInv.init_valid (cfg : Config) (hv : cfg.Valid) : CacheInv (Cache.init cfg) := CacheInv.init cfg hv.chunks
+
+theorem Cache.init_chunkOf (cfg : Config) (k : Bytes) : (Cache.init cfg).chunkOf k = Chunk.empty := by
+  unfold Cache.chunkOf Cache.init
+  rw [List.getElem?_replicate]
+  split <;> rfl
+
+/-- what "at least one item and one byte per chunk" buys: the first add into a fresh cache is accepted
+    (safety — `CacheInv` — needs only `1 ≤ numChunks`) -/
+theorem init_add_succeeds (cfg : Config) (hv : cfg.Valid) (k p : Bytes) (s : Int) :
+    ((Cache.init cfg).hasOrAdd Variant.current k p s).2 = (false, true) := by
+  have hmax : max cfg.numChunks 1 = cfg.numChunks := Nat.max_eq_left hv.chunks
+  have h1 : 1 ≤ cfg.chunkCfg.maxNumItems := by
+    show 1 ≤ cfg.maxNumItems / max cfg.numChunks 1; rw [hmax]; exact hv.items
+  have h2 : 1 ≤ cfg.chunkCfg.maxNumBytes := by
+    show 1 ≤ cfg.maxNumBytes / max cfg.numChunks 1; rw [hmax]; exact hv.bytes
+  have hex : Chunk.empty.exceeded cfg.chunkCfg = false := by
+    simp [Chunk.exceeded, Chunk.empty]; omega
+  have hev : Chunk.empty.evictIfNeeded cfg.chunkCfg = some Chunk.empty := by
+    unfold Chunk.evictIfNeeded; rw [hex]; rfl
+  unfold Cache.hasOrAdd
+  rw [Cache.init_chunkOf]
+  show ((Chunk.empty.addItem Variant.current cfg.chunkCfg k p s).2.1, (Chunk.empty.addItem Variant.current cfg.chunkCfg k p s).2.2) = _
+  rcases addItem_cases cfg.chunkCfg Chunk.empty k p s with ⟨hk, _⟩ | ⟨_, he, _⟩ | ⟨_, c', _, e⟩
+  · cases hk
+  · rw [hev] at he; cases he
+  · rw [e]
+
 /-- replacing chunk `i` by a chunk that satisfies the chunk invariant and only holds keys routed to `i` -/
 theorem CacheInv.setChunk {c : Cache} (h : CacheInv c) (i : Nat) (ch : Chunk) (hc : ChunkInv c.cfg.chunkCfg ch)
     (hri : ∀ it ∈ ch.items, fnv32 it.key % c.cfg.numChunks = i)
@@ -1055,6 +1089,7 @@ def cfg : Config := ⟨2, 4, 1000, 2⟩
 example : fnv32 [1] % 2 = 0 ∧ fnv32 [3] % 2 = 0 ∧ fnv32 [5] % 2 = 0 ∧ fnv32 [7] % 2 = 0 ∧
     fnv32 [2] % 2 = 1 ∧ fnv32 [4] % 2 = 1 := by decide
 example : cfg.chunkCfg.maxNumItems = 2 ∧ cfg.chunkCfg.numToEvict = 1 := by decide
+example : cfg.Valid := ⟨by decide, by decide, by decide⟩
 
 /-- key [1] is immunized BEFORE it is added (future immunity); chunk 0 = {[1]*, [3]} is then full, chunk 1 = {[2]} -/
 def pre : List CacheOp := [.imm [[1]], .add [1] [0xa1] 1, .add [2] [0xa2] 1, .add [3] [0xa3] 1]
@@ -1116,6 +1151,17 @@ example : CProtected c2 [1] [0xa1] :=
   cprotected_run inv1 [1] [0xa1] mid (by decide) (by decide) (by decide) (by decide)
 example : CProtected ((Cache.apply c1 (.add [5] [0xa5] 1)).immunizeKeys [[5]]).1 [5] [0xa5] :=
   cprotected_of_immunize (inv1.apply _ (by decide)) [[5]] (by decide) [5] [0xa5] (by decide) (by decide)
+-- the whole story in one statement: immunize [1]; add it; then the rest of the history (eviction pressure etc.)
+def rest : List CacheOp := [CacheOp.add [2] [0xa2] 1, .add [3] [0xa3] 1] ++ mid
+theorem gate_ok : ¬ c0.gateRefuses [[1]] := by decide
+theorem added_ok : ((([] : List CacheOp).foldl Cache.apply (c0.immunizeKeys [[1]]).1).hasOrAdd
+    Variant.current [1] [0xa1] 1).2.2 = true := by decide
+theorem rest_ok : (∀ op ∈ rest, op.sizeOk) ∧ CacheOp.rm [1] ∉ rest ∧ CacheOp.clear ∉ rest := by decide
+example : (rest.foldl Cache.apply
+    ((([] : List CacheOp).foldl Cache.apply (c0.immunizeKeys [[1]]).1).hasOrAdd Variant.current [1] [0xa1] 1).1).get [1]
+      = some [0xa1] :=
+  immunize_then_add_protected inv0 [[1]] gate_ok [1] [0xa1] 1 (by decide) (by decide) [] rest
+    (by decide) rest_ok.1 (by decide) (by decide) rest_ok.2.1 rest_ok.2.2 added_ok
 -- and protection really ends with `remove k` / `clear` (so the two exclusions in `cprotected_step` are necessary)
 example : ¬ CProtected (c2.apply (.rm [1])) [1] [0xa1] ∧ ¬ CProtected (c2.apply .clear) [1] [0xa1] := by decide
 
